@@ -4,6 +4,7 @@ real `depccg.parsing.run`, with the worker pool, clock, faults and schedule
 owned by the simulator."""
 import math
 import pickle
+import re
 
 import numpy
 
@@ -147,10 +148,10 @@ def exec_call(world, op, executor_mode='inprocess', poplog=False, binary=None, u
                 processes=op.get('processes', 2), max_chunk_size=op.get('max_chunk_size', 20),
                 **cfg)
         except (simpool.SimDeadlock, simpool.SimLivelock) as e:
-            rec.exception = (type(e).__name__, str(e))
+            rec.exception = (type(e).__name__, re.sub(r' at 0x[0-9a-f]+', ' at 0x..', str(e)))
             rec.exc_obj = e
         except Exception as e:  # noqa
-            rec.exception = (type(e).__name__, str(e))
+            rec.exception = (type(e).__name__, re.sub(r' at 0x[0-9a-f]+', ' at 0x..', str(e)))
             rec.exc_obj = e
     finally:
         rec.trace = cemu.stop_trace()
